@@ -17,8 +17,10 @@ EXTENDS GeneticCode, FiniteSetsExt, Integers
 Wild == -1
 Ones == [c \in Codons |-> 1]
 Zeros == [c \in Codons |-> 0]
+(* NOTE for TLC: pass a named constant or a bound value as s - an argument expression is re-evaluated on
+   every application of the resulting function *)
 Count(s) == [c \in Codons |-> Cardinality({i \in 1..(Len(s) \div 3) : UpCodonAt(s, i) = c})]
-AddW(a, b) == [c \in Codons |-> IF a[c] = Wild \/ b[c] = Wild THEN Wild ELSE a[c] + b[c]]
+AddW(a, b) == TLCEval([c \in Codons |-> IF a[c] = Wild \/ b[c] = Wild THEN Wild ELSE a[c] + b[c]])
 HasWild(w) == \E c \in Codons : w[c] = Wild
 
 Total(id, w, aa) == FoldSet(LAMBDA c, acc : acc + w[c], 0, CodonsOf(id, aa))
@@ -28,12 +30,13 @@ ShareOf(id, w, c) == (10000 * w[c]) \div Total(id, w, Code[id][c])      \* only 
 (* Wild when the property leaves it open: an amino acid with total weight 0, or a share *)
 (* within 1 of a non-zero cut-off (the +/-1 rounding slack could flip the zeroing).     *)
 CompW(id, a, b, cut) ==
-    [c \in Codons |->
+    TLCEval([c \in Codons |->
         LET ta == Total(id, a, Code[id][c]) tb == Total(id, b, Code[id][c]) IN
         IF ta = 0 \/ tb = 0 THEN Wild
         ELSE LET sa == ShareOf(id, a, c) sb == ShareOf(id, b, c) IN
-             IF cut # 0 /\ (sa - cut \in {-1, 0, 1} \/ sb - cut \in {-1, 0, 1}) THEN Wild
-             ELSE IF sa < cut \/ sb < cut THEN 0 ELSE (sa + sb) \div 2]
+             IF sa < cut - 1 \/ sb < cut - 1 THEN 0                          \* clearly below in one organism
+             ELSE IF cut # 0 /\ (sa <= cut + 1 \/ sb <= cut + 1) THEN Wild  \* within the rounding slack of the cut-off
+             ELSE (sa + sb) \div 2])
 AllWild == [c \in Codons |-> Wild]
 
 (* acceptance of an observed vector against a nominal one with tolerance tol *)
